@@ -5,7 +5,7 @@
    error travelling up -- never escapes), Fatal (FErr ..) (a pybtex error left the reader),
    Fatal FCrash (a foreign Python exception), Fatal FFuel (the model ran out of fuel). *)
 From Pybtex Require Import Base.Prelude Base.PyChar Base.PyStr Model.BibtexStr Model.Names
-  Model.Scanner Model.BibParser Proofs.Scanner Proofs.BibParser.
+  Model.Scanner Model.BibParser Proofs.Scanner Proofs.BibParser Proofs.BibStrict Proofs.BibValues Proofs.BibEntry.
 
 (* TOTALITY: for every text whatsoever and every reporting mode, reading terminates within
    the model's fuel (|text|+1 per loop), raises no foreign exception (IndexError in
@@ -52,6 +52,18 @@ Theorem capture_equals_nonstrict : forall text, parse_bib NonStrict text = parse
 Proof. exact parse_bib_ns_all. Qed.
 Print Assumptions capture_equals_nonstrict.
 
+(* STRICT MODE: if strict mode returns a database at all, then no error handler was ever
+   called: capture mode returns the very same database and final state and reports nothing;
+   and whenever capture mode reports at least one problem, strict mode raises a pybtex error.
+   PARTIAL (strict_raises_first of DESIGN.md): that the error raised is exactly the FIRST one
+   capture mode records, and that strict mode succeeds whenever capture mode reports nothing,
+   are not proved (the oracle checks both on every generated input). *)
+Theorem strict_raises_first_partial : forall text,
+  (forall d s, parse_bib Strict text = Ret d s -> parse_bib Capture text = Ret d s /\ p_errs s = []) /\
+  (forall d s, parse_bib Capture text = Ret d s -> p_errs s <> [] -> exists c l, parse_bib Strict text = Fatal (FErr c l)).
+Proof. intros text. split; [exact (strict_success text)|exact (strict_raises text)]. Qed.
+Print Assumptions strict_raises_first_partial.
+
 (* CONFINEMENT, command level (the character-level statement is left to the correspondence
    run and the oracle: see notes/C10.md).
    (1) entries and preamble items are only ever appended to the database: nothing that
@@ -69,6 +81,17 @@ Theorem suffix_confinement_partial : forall D (proc : mode -> cmd -> D -> pst ->
   view (bib_loop proc fuel m d (mkP (p_sc s) (p_macros s) (p_errs s) k fs fn v cs)) = view (bib_loop proc fuel m d s).
 Proof. exact @bib_loop_forgets. Qed.
 Print Assumptions suffix_confinement_partial.
+
+(* CONFINEMENT, character level, for well-formed prefixes: whatever text b follows a sequence
+   of well-formed entries (another entry, a malformed one, a truncated one, noise ...), the
+   low-level reader yields exactly those entries first -- a malformed entry never alters the
+   entries read before it.  PARTIAL: the prefix is a sequence of whitespace-separated
+   well-formed entries (no junk, @string, @preamble, @comment in the prefix); the suffix
+   direction (entries AFTER a balanced malformed entry) is not proved at character level. *)
+Theorem prefix_confinement_wellformed_partial : forall m es b d s, Forall (wf_sentry month_macros) es ->
+  lowlevel m (file_text es b) = Ret d s -> exists l, d = map (entry_cmd month_macros) es ++ l.
+Proof. exact prefix_confinement_lowlevel. Qed.
+Print Assumptions prefix_confinement_wellformed_partial.
 
 (* non-vacuity *)
 Definition ex_text : str := s2l "@a{k, t = {x} # y}
